@@ -595,6 +595,11 @@ def run_one(path: str, variant: str, spec: tuple | None) -> dict:
                 res["second"] = "ok"
             except asyncio.TimeoutError:
                 problems.append("the second close did not return (30 virtual seconds)")
+            except asyncio.CancelledError:
+                cur = asyncio.current_task()
+                if cur is not None and cur.cancelling():
+                    raise
+                problems.append("the second close raised CancelledError although nobody cancelled it (a cancelled first close poisoned what the second one waits on)")
             except Exception as exc:  # noqa: BLE001
                 res["second"] = f"raised:{type(exc).__name__}"
             if loop.time() - tt0 > 0.05 or loop.iteration - it0 > 6:
